@@ -18,11 +18,18 @@ Import ListNotations.
    setters present, negative photons clipped, float64 accepted by Pixel (its empty() stores zeros),
    no raw detector setter for ANY bucket, Photon.__iadd__ and Photon.__add__ store through the
    setters on every branch, ArrayBase.__eq__ compares emptiness on both sides and Photon.__eq__
-   compares the geometry. *)
+   compares the geometry, every getter (and both __array__ methods) refuses an empty container,
+   empty() stores None (float zeros allowed for Pixel only), Detector.empty empties photon, signal,
+   image always and pixel at least under reset, MKID.empty zeroes the phase array under reset. *)
 Theorem C13_source_tables_ok : tables_ok src_tables = true.
 Proof. vm_compute. reflexivity. Qed.
 Print Assumptions C13_source_tables_ok.
 
+Definition ex_ok2d := mk_np [2; 3] F32 [1; 2; 3; 4; 5; 6]%Z.
+Definition ex_neg2d := mk_np [2; 3] F64 [(-1); 2; 3; 4; 5; 6]%Z.
+Definition ex_wrong := mk_np [3; 2] F64 [1; 2; 3; 4; 5; 6]%Z.
+Definition ex_3d_ok := mk_xr [0; 1; 2] (Some [400; 420]%Z) [2; 2; 3] F64 [1; 1; 1; 1; 1; 1; 2; 1; 1; 1; 1; 1]%Z.
+Definition ex_3d := mk_xr [0; 1; 2] (Some [400; 420]%Z) [2; 2; 3] F64 [1; 1; 1; 1; 1; 1; (-2); 1; 1; 1; 1; 1]%Z.
 (* ------------------------------------------------------------------ the invariant *)
 
 (* ALL operation sequences (set, set3d, update, +=, +, empty, reads, ==, detector assignment,
@@ -86,15 +93,29 @@ Theorem C13_failed_assign_preserves :
 Proof. intros c0 ops o c' e H0 H. exact (failed_op_preserves src_tables C13_source_tables_ok c0 ops o c' e H0 H). Qed.
 Print Assumptions C13_failed_assign_preserves.
 
+(* reading an empty container raises — through `.array`, `.array_3d` and `np.asarray(container)`; proved from the
+   regenerated guard tables of the five getters *)
 Theorem C13_read_empty_raises :
   forall c, c_content c = None ->
-    step src_tables c ORead = (c, Raise ValueError)
-    /\ (c_kind c = Photon -> step src_tables c ORead3D = (c, Raise ValueError))
+    (exists e, step src_tables c ORead = (c, Raise e))
+    /\ (c_kind c = Photon -> exists e, step src_tables c ORead3D = (c, Raise e))
     /\ (exists e, step src_tables c OAsArray = (c, Raise e)).
 Proof.
-  intros c H. split; [apply read_empty_raises | split; [intro; apply read3d_empty_raises | apply asarray_empty_raises]]; assumption.
+  intros c H. split; [|split].
+  - apply read_empty_raises; [exact C13_source_tables_ok | exact H].
+  - intro Hk. apply read3d_empty_raises; [exact C13_source_tables_ok | exact Hk | exact H].
+  - apply asarray_empty_raises; [exact C13_source_tables_ok | exact H].
 Qed.
 Print Assumptions C13_read_empty_raises.
+
+(* ... and, as the source stands, with the explanatory ValueError (TypeError from ArrayBase.__array__) *)
+Example C13_ex_read_empty_classes :
+  step src_tables (empty_container Signal 2 2) ORead = (empty_container Signal 2 2, Raise ValueError)
+  /\ step src_tables (empty_container Photon 2 2) ORead = (empty_container Photon 2 2, Raise ValueError)
+  /\ step src_tables (empty_container Photon 2 2) ORead3D = (empty_container Photon 2 2, Raise ValueError)
+  /\ step src_tables (empty_container Photon 2 2) OAsArray = (empty_container Photon 2 2, Raise ValueError)
+  /\ step src_tables (empty_container Image 2 2) OAsArray = (empty_container Image 2 2, Raise TypeError).
+Proof. vm_compute. repeat split; reflexivity. Qed.
 
 (* never stale data: a read that returns, returns the stored array and changes nothing *)
 Theorem C13_read_returns_content :
@@ -103,6 +124,26 @@ Theorem C13_read_returns_content :
     c' = c /\ c_content c = Some a.
 Proof. intros. eapply read_returns_content; eauto. Qed.
 Print Assumptions C13_read_returns_content.
+
+(* resets leave nothing behind: after empty(), update(None) (ArrayBase classes) and detector.empty(reset=True) the
+   container is empty — float zeros for Pixel, zeros (NaN where it was not finite) for the MKID phase —
+   whatever it held before; proved from the regenerated tables of empty()/update()/Detector.empty/MKID.empty *)
+Theorem C13_reset_leaves_nothing :
+  forall c o, (o = OEmpty \/ o = OUpdate None \/ o = ODEmpty true) -> (o = OUpdate None -> c_kind c <> Photon) ->
+    reset_ok (c_kind c) o (c_content c) (c_content (fst (step src_tables c o))) = true.
+Proof. exact (reset_leaves_nothing src_tables C13_source_tables_ok). Qed.
+Print Assumptions C13_reset_leaves_nothing.
+
+Example C13_ex_reset :
+  c_content (fst (step src_tables (mk_cont Photon 2 3 (Some ex_3d_ok)) OEmpty)) = None
+  /\ c_content (fst (step src_tables (mk_cont Pixel 1 2 (Some (mk_np [1; 2] F32 [5; 6]%Z))) (ODEmpty true)))
+     = Some (mk_np [1; 2] F64 [0; 0]%Z)
+  /\ c_content (fst (step src_tables (mk_cont Pixel 1 2 (Some (mk_np [1; 2] F32 [5; 6]%Z))) (ODEmpty false)))
+     = Some (mk_np [1; 2] F32 [5; 6]%Z)
+  /\ c_content (fst (step src_tables (mk_cont Phase 1 2 (Some (mk_np [1; 2] F32 [5; zPInf]%Z))) (ODEmpty true)))
+     = Some (mk_np [1; 2] F32 [0; zNaN]%Z)
+  /\ reset_ok Signal OEmpty None (Some (mk_np [1; 2] F32 [5; 6]%Z)) = false.
+Proof. vm_compute. repeat split; reflexivity. Qed.
 
 (* ------------------------------------------------------------------ equality *)
 
@@ -133,10 +174,6 @@ Print Assumptions C13_eq_spec_symmetric.
 
 (* ------------------------------------------------------------------ non-vacuity and regression witnesses *)
 
-Definition ex_ok2d := mk_np [2; 3] F32 [1; 2; 3; 4; 5; 6]%Z.
-Definition ex_neg2d := mk_np [2; 3] F64 [(-1); 2; 3; 4; 5; 6]%Z.
-Definition ex_wrong := mk_np [3; 2] F64 [1; 2; 3; 4; 5; 6]%Z.
-Definition ex_3d := mk_xr [0; 1; 2] (Some [400; 420]%Z) [2; 2; 3] F64 [1; 1; 1; 1; 1; 1; (-2); 1; 1; 1; 1; 1]%Z.
 Definition ex_ops_photon : list op :=
   [OIAdd ex_ok2d; ORead; OSet ex_neg2d; OSet ex_wrong; OIAdd ex_neg2d; OAsArray; OEmpty; OSet3D ex_3d; ORead3D;
    OIAdd (mk_xr [0; 1; 2] (Some [400; 420]%Z) [2; 2; 3] F64 [1; 1; 1; 1; 1; 1; 1; 1; 1; 1; 1; (-9)]%Z);
